@@ -66,6 +66,16 @@ def precondition_ok(m):
     return True
 
 
+TARGETED = [
+    (0, 8, "bitrep", "nearrep"), (0, 8, "bitrep", "used"), (0, 8, "bitrep", "unused"), (0, 8, "bitrep", "nearrep"),
+    (0, 16, "hilo", "hilo16"), (0, 16, "hilo", "nonhilo16"), (0, 16, "hilo", "used"), (2, 16, "hilo", "hilo16"), (2, 16, "hilo", "nonhilo16"),
+    (2, 8, "gray", "used"), (2, 8, "gray", "unused"), (2, 16, "gray", "used"), (2, 8, "fewcolors", "used"), (0, 8, "fewcolors", "used"),
+    (0, 4, "random", "used"), (0, 2, "random", "used"), (0, 1, "random", "used"), (0, 4, "random", "unused"), (0, 8, "bitrep", "nearrep"),
+    (4, 8, "binalpha", "none"), (6, 8, "binalpha_gray", "none"), (4, 16, "binalpha", "none"), (6, 16, "binalpha", "none"), (4, 8, "banded_key", "none"),
+    (3, 8, "fewcolors", "none"), (3, 4, "random", "none"), (3, 8, "gray", "none"), (3, 2, "random", "none"), (3, 1, "random", "none"),
+]
+
+
 def run_reductions(rep, table, n_images, prefix, sig_prefix, big=False):
     rng = rep.rng
     impl = os.path.join(rep.info["bin"], "implrun")
@@ -79,6 +89,9 @@ def run_reductions(rep, table, n_images, prefix, sig_prefix, big=False):
             w, h = min(w, 16), min(h, 16)
         cls = rng.choice(imggen.CLASSES)
         key = rng.choice(imggen.KEY_MODES)
+        if k % 3 == 2:
+            # combinations in which a reduction fires AND a colour key has to be carried along (or dropped) correctly
+            ct, depth, cls, key = TARGETED[(k // 3) % len(TARGETED)]
         tok, info = imggen.gen(rng, ct, depth, w, h, il, cls, key)
         for cmd, rel in table:
             if not applicable(cmd, ct, depth):
